@@ -164,13 +164,17 @@ def parse_export(path):
     """Lines  <<"T", "<json>">>  printed by the Export action constraint.  Returns (edges, counts-text)."""
     edges = []
     tail = []
+    dec = json.JSONDecoder()
     with open(path) as f:
         for line in f:
-            if line.startswith('<<"T", '):
-                s = line.rstrip('\n')
-                inner = json.loads(s[7:-2])
+            # (TLC prints its progress reports from another thread: one may land on the same line as a record)
+            while line.startswith('<<"T", '):
+                inner, end = dec.raw_decode(line, 7)
                 edges.append(json.loads(inner))
-            elif not line.startswith('<<'):
+                line = line[end:]
+                if line.startswith('>>'):
+                    line = line[2:]
+            if line.strip() and not line.startswith('<<'):
                 tail.append(line)
     return edges, ''.join(tail)
 
